@@ -177,6 +177,10 @@ KnownFinding(stmts, clause) ==
 (* 7.5 tiles: circuit wires to small poles between 7.5 and 9 tiles long.                                                     *)
 (* KF-C18-split-grid: pole clusters are placed around distant groups of entities without a connecting line of poles:         *)
 (* user entities >= 8 tiles apart give separate electric networks.                                                      *)
+(* KF-C18-grid-before-layout: the pole grid is planned from ESTIMATED bounds before the entities are placed (and then trimmed); when   *)
+(* the layout (e.g. a time-limited one) puts compiler-placed combinators outside that area they are unpowered, and pole clusters     *)
+(* around scattered groups are not connected.  Distinguished by geometry: only combinators OUTSIDE the bounding box of all supply    *)
+(* areas are excused (clause C18_powered_outside); an unpowered entity inside it, or an unpowered user entity, is C18_powered.       *)
 PlacesFarApart(stmts) == \E i, j \in DOMAIN stmts : stmts[i].k = "place" /\ stmts[j].k = "place" /\ stmts[i].x.k = "num" /\ stmts[j].x.k = "num"
                             /\ (stmts[i].x.v - stmts[j].x.v >= 8 \/ stmts[i].y.v - stmts[j].y.v >= 8)
 KnownFindingR(rec, clause) ==
@@ -184,5 +188,7 @@ KnownFindingR(rec, clause) ==
   IF clause = "C18_powered" /\ poles = "big" THEN "KF-C18-big-supply"
   ELSE IF clause = "C08_wire_reach" /\ poles = "small" THEN "KF-C08-small-pole-span"
   ELSE IF clause = "C18_one_grid" /\ poles # "" /\ PlacesFarApart(rec.stmts) THEN "KF-C18-split-grid"
+  ELSE IF clause = "C18_powered_outside" /\ poles # "" THEN "KF-C18-grid-before-layout"
+  ELSE IF clause = "C18_one_grid" /\ poles # "" /\ ~(\E i \in DOMAIN rec.stmts : rec.stmts[i].k \in {"place", "for", "func"}) THEN "KF-C18-grid-before-layout"
   ELSE KnownFinding(rec.stmts, clause)
 =============================================================================
